@@ -29,11 +29,53 @@ def run(ck):
         else:
             r = ck.tlc("ClientCfg", "MC_ClientCfg_sync.cfg", constants=consts, timeout=1500)
         one_round(ck, binary, consts, r.printed)
+    if ck.replay is None or ck.replay.get("c", {}).get("rm"):
+        concurrent_removal(ck, binary or bg(), [ck.replay] if ck.replay is not None else None)
     ck.exhaustive = True
     ck.assumptions += ["hostnames are atoms: the code only compares them for equality and tests for a dot",
                        "the gateway reports each registered hostname once and GenerateHostname returns fresh dot-free names (scripted RPC)",
                        "a failed GenerateHostname call (cases with calls 1 / 2 / 1,2 / 1,3 failing) may leave that many tunnels without a hostname; every other clause still holds",
                        "the client object is reused across cases and reset to the case's tunnel list (NewClient's certificate cache is costly)"]
+
+
+def concurrent_removal(ck, b, cases=None):
+    """a tunnel is released / unpublished by another caller while the sync waits for the gateway's answer (the removal takes the
+    configuration lock, not the sync lock).  Which of the two wins is not specified; the statement's invariant is: afterwards every tunnel with
+    a target has a hostname and no two tunnels share one."""
+    if cases is None:
+        cases = []
+        names = ["a", "b", "c", "d.example.com"]
+        for n in (2, 3, 4):
+            for rm in range(1, n + 1):
+                for reg in ([], ["a"], ["x", "b"]):
+                    cases.append({"c": {"tun": [{"tg": True, "hn": names[k]} for k in range(n)], "reg": reg, "fail": [], "rm": rm}})
+        # tunnels without hostname behind the removed one: they are given hostnames while the list shrinks
+        for rm in (1, 2):
+            cases.append({"c": {"tun": [{"tg": True, "hn": "a"}, {"tg": True, "hn": "b"}, {"tg": True, "hn": ""}, {"tg": True, "hn": ""}], "reg": ["x"], "fail": [], "rm": rm}})
+    d = clientlib.scratch_dir(ck, "c43r")
+    try:
+        recs = ck.drive(b, ["sync", d], input_lines=[c["c"] for c in cases], timeout=900)
+    finally:
+        shutil.rmtree(d, ignore_errors=True)
+    byi = {x["i"]: x["o"] for x in recs if "i" in x}
+    if len(byi) != len(cases):
+        raise vf.Infra("driver answered %d of %d cases" % (len(byi), len(cases)))
+    for i, c in enumerate(cases):
+        cc, o = c["c"], byi[i]
+        ck.count(("removal", json.dumps(cc)), True)
+        if o["panic"]:
+            ck.violation("C43:panic:concurrent-removal", "SyncConfigTunnels panicked: %s; case=%s" % (o["panic"], json.dumps(cc)), c)
+            continue
+        hs = [h for h in o["out"] if h]
+        if len(set(hs)) < len(hs):
+            ck.violation("C43:distinct:concurrent-removal",
+                         "after a sync during which the tunnel at position %d was %s two tunnels share a hostname: tunnels=%s registered=%s -> hostnames=%s"
+                         % (cc["rm"], "released" if i % 2 == 0 else "unpublished", json.dumps(cc["tun"]), o["regorder"], o["out"]), c)
+        elif "" in o["out"]:
+            ck.violation("C43:has:concurrent-removal", "after a sync during which the tunnel at position %d was removed a tunnel with a target has no hostname: "
+                         "tunnels=%s -> hostnames=%s" % (cc["rm"], json.dumps(cc["tun"]), o["out"]), c)
+    ck.traces += len(cases)
+    ck.extra["syncs_with_a_concurrent_removal"] = len(cases)
 
 
 def one_round(ck, b, consts, cases):
